@@ -13,7 +13,10 @@ import WebrtcVerif.Model.Origin
              | origin <id> <ver> | <name:fin|parked>…
     seq eng=<a|d|p> <op>…
         one real PeerConnection (eng=a: audio codec only; eng=p: the same under SDPSemanticsPlanB; eng=d: default
-        codecs); ops O CreateOffer, A CreateAnswer (Ot / At: with ICETricklingSupported), R remote offer,
+        codecs; a data channel exists from the start); ops O CreateOffer, A CreateAnswer (Ot / At: with
+        ICETricklingSupported), R remote offer, N / Np the remote peer's answer / pranswer to our pending (else
+        last) offer, Rl / Rr SetLocalDescription / SetRemoteDescription(rollback), P the last answer applied as
+        pranswer, Ko / Lo the offer / answer created BEFORE the last one applied (an older description),
         L SetLocalDescription(last answer), K SetLocalDescription(last offer), T add audio transceiver,
         D data channel, X add a recvonly video transceiver (codec-less under eng=a: CreateOffer then runs
         its retry loop 128 times and fails), C Close.
@@ -166,59 +169,71 @@ def runSch (p : Prog) : String :=
   String.intercalate " " (ev1 ++ ["/"] ++ ev2 ++ ["|"] ++ sim2.log
     ++ ["|", "origin", toString sim2.core.id.toNat, toString sim2.core.ver.toNat, "|"] ++ states)
 
-/-! ### real PeerConnections: which calls reach `updateSDPOrigin`, and how often -/
+/-! ### real PeerConnections: the proved history model (`Origin.pcStep` over `Signaling.Neg`) decides which
+    calls reach `updateSDPOrigin`; the harness-level bookkeeping around it only chooses the actions -/
 
-inductive Sig | stable | hro | hlo | closed
-  deriving DecidableEq, Repr
+def sigName : Signaling.Sig → String
+  | .stable => "stable" | .haveLocalOffer => "have-local-offer" | .haveRemoteOffer => "have-remote-offer"
+  | .haveLocalPranswer => "have-local-pranswer" | .haveRemotePranswer => "have-remote-pranswer"
+  | .closed => "closed" | .unknown => "unknown"
 
-def Sig.name : Sig → String
-  | .stable => "stable" | .hro => "have-remote-offer" | .hlo => "have-local-offer" | .closed => "closed"
-
-structure PcSt where
-  sig : Sig := .stable
+structure SeqSt where
+  pc : Origin.PcSt := {}
   codecless : Bool := false
-  haveOffer : Bool := false
-  haveAnswer : Bool := false
-  cells : UInt64 × UInt64 := (0, 0)
   gen : Nat := 0                      -- descriptions generated so far (numbers the fresh origins)
   clock : Nat := 0
   calls : List (String × Nat × Nat × Option (UInt64 × UInt64)) := []   -- kind, start, ret, origin
+  offers : List Nat := []             -- numbers k (`Txt.made k 0`) of the offers handed out, most recent first
+  answers : List Nat := []
 
 /-- the model's stand-in for the origin pion/sdp draws for the k-th generated description -/
 def freshOrigin (k : Nat) : UInt64 × UInt64 := (UInt64.ofNat (7000 + k), UInt64.ofNat (1790000000 + k % 3))
 
 def freshList (from_ n : Nat) : List (UInt64 × UInt64) := (List.range n).map (fun k => freshOrigin (from_ + k))
 
-/-- a `CreateOffer` / `CreateAnswer` call that generates `n` descriptions and returns the last iff `ret` -/
-def apiCall (s : PcSt) (kind : String) (n : Nat) (ret : Bool) : PcSt :=
-  let a : Api := { fresh := freshList s.gen n, returns := ret }
-  let (cells, last) := (runFresh s.cells a.fresh none).getD (s.cells, none)
-  let o := if ret then last else none
-  { s with cells, gen := s.gen + n, clock := s.clock + 2, calls := s.calls ++ [(kind, s.clock, s.clock + 1, o)] }
+def pcAct (s : SeqSt) (a : PcAct) : SeqSt := { s with pc := (pcStep s.pc a).getD s.pc }
 
-/-- `codecOnlyAudio`: the engine has no video codec; `planB`: SDPSemanticsPlanB (no retry loop: CreateOffer
-    leaves it after the first iteration) -/
-def seqOp (codecOnlyAudio planB : Bool) (s : PcSt) (op : String) : Option PcSt :=
-  let closed := s.sig == .closed
-  let offer (s : PcSt) : PcSt :=
-    if closed then apiCall s "O" 0 false
-    else if s.codecless then apiCall s "O" 128 false     -- errExcessiveRetries after 128 iterations
-    else { apiCall s "O" 1 true with haveOffer := true }
-  let answer (s : PcSt) : PcSt :=
-    if s.sig == .hro then { apiCall s "A" 1 true with haveAnswer := true }
-    else apiCall s "A" 0 false
+/-- a `CreateOffer` / `CreateAnswer` call that (if its guards pass) generates `n` descriptions and returns
+    the last iff `ret` -/
+def apiCall (s : SeqSt) (kind : String) (n : Nat) (ret : Bool) : SeqSt :=
+  let a : Api := { fresh := freshList s.gen n, returns := ret }
+  let before := s.pc.created.length
+  let s' := pcAct s (if kind == "O" then .createOffer a else .createAnswer a)
+  let o := if s'.pc.created.length > before then s'.pc.created.getLast? else none
+  let s' := { s' with gen := s.gen + n, clock := s.clock + 2, calls := s.calls ++ [(kind, s.clock, s.clock + 1, o)] }
+  match o with
+  | none => s'
+  | some _ => if kind == "O" then { s' with offers := before :: s'.offers } else { s' with answers := before :: s'.answers }
+
+def applyLocal (s : SeqSt) (ty : Signaling.Ty) (k : Option Nat) : SeqSt :=
+  match k with
+  | none => s                         -- the harness has no such description: nothing is called
+  | some k => pcAct s (.setLocal { ty := ty, txt := .made k 0 })
+
+/-- `codecOnlyAudio`: the engine has no video codec; `planB`: SDPSemanticsPlanB -/
+def seqOp (codecOnlyAudio planB : Bool) (s : SeqSt) (op : String) : Option SeqSt :=
+  let offer (s : SeqSt) : SeqSt :=
+    if s.codecless then apiCall s "O" 128 false     -- errExcessiveRetries after 128 iterations
+    else apiCall s "O" 1 true
   match op with
   | "O" => some (offer s)
   | "Ot" => some (offer s)
-  | "A" => some (answer s)
-  | "At" => some (answer s)
-  | "R" => some (if s.sig == .stable then { s with sig := .hro } else s)
-  | "L" => some (if s.sig == .hro && s.haveAnswer then { s with sig := .stable } else s)
-  | "K" => some (if s.sig == .stable && s.haveOffer then { s with sig := .hlo } else s)
-  | "X" => some (if !closed && codecOnlyAudio && !planB then { s with codecless := true } else s)   -- ignored under Plan B
+  | "A" => some (apiCall s "A" 1 true)
+  | "At" => some (apiCall s "A" 1 true)
+  | "R" => some (pcAct s (.setRemote { ty := .offer, txt := .garbage }))
+  | "N" => some (pcAct s (.setRemote { ty := .answer, txt := .garbage }))
+  | "Np" => some (pcAct s (.setRemote { ty := .pranswer, txt := .garbage }))
+  | "L" => some (applyLocal s .answer s.answers.head?)
+  | "Lo" => some (applyLocal s .answer s.answers[1]?)       -- an OLDER answer than the last created one
+  | "P" => some (applyLocal s .pranswer s.answers.head?)
+  | "K" => some (applyLocal s .offer s.offers.head?)
+  | "Ko" => some (applyLocal s .offer s.offers[1]?)         -- an OLDER offer than the last created one
+  | "Rl" => some (pcAct s (.setLocal { ty := .rollback, txt := .empty }))
+  | "Rr" => some (pcAct s (.setRemote { ty := .rollback, txt := .empty }))
+  | "X" => some (if !s.pc.neg.isClosed && codecOnlyAudio && !planB then { s with codecless := true } else s)   -- ignored under Plan B
   | "T" => some s
   | "D" => some s
-  | "C" => some { s with sig := .closed }
+  | "C" => some (pcAct s .close)
   | _ => none
 
 def minVer (os : List (UInt64 × UInt64)) : Nat :=
@@ -242,9 +257,9 @@ def showCalls (calls : List (String × Nat × Nat × Option (UInt64 × UInt64)))
 
 def runSeq (eng : String) (ops : List String) : String :=
   if eng != "eng=a" && eng != "eng=d" && eng != "eng=p" then "bad-op" else
-  match ops.foldlM (seqOp (eng != "eng=d") (eng == "eng=p")) ({} : PcSt) with
+  match ops.foldlM (seqOp (eng != "eng=d") (eng == "eng=p")) ({} : SeqSt) with
   | none => "bad-op"
-  | some s => String.intercalate " " (showCalls s.calls ++ ["|", "sig=" ++ s.sig.name, "hyp=1"])
+  | some s => String.intercalate " " (showCalls s.calls ++ ["|", "sig=" ++ sigName s.pc.neg.sig, "hyp=1"])
 
 def kv (args : List String) (key : String) : Option String :=
   (args.find? (·.startsWith (key ++ "="))).map (fun t => String.ofList (t.toList.drop (key.length + 1)))
